@@ -9,11 +9,32 @@ Exit codes of a check: 0 property held on everything explored (KNOWN-FINDING lin
 import hashlib, json, os, re, subprocess, sys, time, shutil, threading
 
 VERIF = os.path.dirname(os.path.dirname(os.path.abspath(__file__)))
-WORK = os.path.join(VERIF, "work")
+# The registered checks always test /repo.  For development (seeded changes tested in parallel lanes) another
+# checkout can be named with VERIF_REPO; it gets its own scratch directory and its own copy of the harness.
+REPO = os.environ.get("VERIF_REPO", "/repo")
+_LANE = "" if REPO == "/repo" else "lane_" + hashlib.sha256(REPO.encode()).hexdigest()[:8]
+WORK = os.path.join(VERIF, "work", _LANE) if _LANE else os.path.join(VERIF, "work")
 SPEC = os.path.join(VERIF, "spec")
 HARNESS = os.path.join(VERIF, "harness")
+
+
+def _lane_harness():
+    """a copy of the harness crate whose path dependency points at REPO"""
+    global HARNESS
+    if not _LANE:
+        return
+    d = os.path.join(WORK, "harness")
+    os.makedirs(os.path.join(d, ".cargo"), exist_ok=True)
+    src = os.path.join(VERIF, "harness")
+    shutil.rmtree(os.path.join(d, "src"), ignore_errors=True)
+    shutil.copytree(os.path.join(src, "src"), os.path.join(d, "src"))
+    shutil.copy(os.path.join(src, "Cargo.lock"), d)
+    shutil.copy(os.path.join(src, ".cargo", "config.toml"), os.path.join(d, ".cargo", "config.toml"))
+    toml = open(os.path.join(src, "Cargo.toml")).read().replace('path = "/repo"', f'path = "{REPO}"')
+    open(os.path.join(d, "Cargo.toml"), "w").write(toml)
+    HARNESS = d
 REPLAYS = os.path.join(VERIF, "replays")
-EVID = os.path.join(VERIF, "evidence")
+EVID = os.path.join(VERIF, "evidence") if not _LANE else os.path.join(WORK, "evidence")
 JAVA_CP = "/opt/veriftools/tla/tla2tools.jar:/opt/veriftools/tla/CommunityModules-deps.jar"
 
 sys.path.insert(0, os.path.join(VERIF, "tools"))
@@ -45,6 +66,7 @@ def build_harness(profile="dev"):
     """cargo build of /verif/harness (path dependency on /repo, hooks on). Returns binary path."""
     if profile in _built:
         return _built[profile]
+    _lane_harness()
     args = ["cargo", "build", "--offline"] + (["--release"] if profile == "release" else [])
     env = dict(os.environ, CARGO_NET_OFFLINE="true")
     t0 = time.time()
